@@ -172,6 +172,9 @@ def _materialize_fnml_execution(results_df, fnml_execution, fnml_df, config, pos
         results_df[position] = '<' + results_df[fnml_execution] + '>'
     elif termtype.strip() == RML_BLANK_NODE:
         results_df[position] = '_:' + results_df[fnml_execution]
+    else:
+        # this case is for language maps, do nothing
+        results_df[position] = results_df[fnml_execution]
 
     return results_df
 
@@ -201,7 +204,7 @@ def _materialize_rml_rule_terms(results_df, rml_rule, fnml_df, config, columns_a
                                                config, 'lang_datatype')
         elif rml_rule['lang_datatype_map_type'] == RML_EXECUTION:
             results_df = _materialize_fnml_execution(results_df, rml_rule['lang_datatype_map_value'], fnml_df, config,
-                                                     'lang_datatype')
+                                                     'lang_datatype', termtype='')
         results_df['object'] = results_df['object'] + '@' + results_df['lang_datatype']
     elif rml_rule['lang_datatype'] == RML_DATATYPE_MAP:
         if rml_rule['lang_datatype_map_type'] in [RML_TEMPLATE, RML_CONSTANT, RML_REFERENCE]:
